@@ -39,11 +39,8 @@ func builtinMathAtan(call FunctionCall) Value {
 
 func builtinMathAtan2(call FunctionCall) Value {
 	y := call.Argument(0).float64()
-	if math.IsNaN(y) {
-		return NaNValue()
-	}
 	x := call.Argument(1).float64()
-	if math.IsNaN(x) {
+	if math.IsNaN(y) || math.IsNaN(x) {
 		return NaNValue()
 	}
 	return float64Value(math.Atan2(y, x))
@@ -116,16 +113,19 @@ func builtinMathMax(call FunctionCall) Value {
 	case 1:
 		return float64Value(call.ArgumentList[0].float64())
 	}
-	result := call.ArgumentList[0].float64()
-	if math.IsNaN(result) {
-		return NaNValue()
+	// ToNumber is applied to every argument, left to right, even after a NaN.
+	numbers := make([]float64, len(call.ArgumentList))
+	for index, value := range call.ArgumentList {
+		numbers[index] = value.float64()
 	}
-	for _, value := range call.ArgumentList[1:] {
-		value := value.float64()
-		if math.IsNaN(value) {
-			return NaNValue()
-		}
+	result := numbers[0]
+	nan := math.IsNaN(result)
+	for _, value := range numbers[1:] {
+		nan = nan || math.IsNaN(value)
 		result = math.Max(result, value)
+	}
+	if nan {
+		return NaNValue()
 	}
 	return float64Value(result)
 }
@@ -137,16 +137,19 @@ func builtinMathMin(call FunctionCall) Value {
 	case 1:
 		return float64Value(call.ArgumentList[0].float64())
 	}
-	result := call.ArgumentList[0].float64()
-	if math.IsNaN(result) {
-		return NaNValue()
+	// ToNumber is applied to every argument, left to right, even after a NaN.
+	numbers := make([]float64, len(call.ArgumentList))
+	for index, value := range call.ArgumentList {
+		numbers[index] = value.float64()
 	}
-	for _, value := range call.ArgumentList[1:] {
-		value := value.float64()
-		if math.IsNaN(value) {
-			return NaNValue()
-		}
+	result := numbers[0]
+	nan := math.IsNaN(result)
+	for _, value := range numbers[1:] {
+		nan = nan || math.IsNaN(value)
 		result = math.Min(result, value)
+	}
+	if nan {
+		return NaNValue()
 	}
 	return float64Value(result)
 }
